@@ -658,10 +658,10 @@ MUTANTS = [
                 self.argument_size,''', '''            arg_part = ExpressionByteCodePart(
                 operand,
                 self.bytecode_size,''', 'C01.3'),
-    V('c01-arg-align-hardcoded', _T + 'relative_address.py', '            self.argument_size,\n            self.argument_byte_align,\n            self.argument_endian,\n            line_id,\n            self.min_offset,',
-      '            self.argument_size,\n            True,\n            self.argument_endian,\n            line_id,\n            self.min_offset,', 'C01.3'),
-    V('c01-offset-endian-family', _T + 'indirect_register.py', '                        self.offset_byte_align,\n                        self.offset_endian,\n                        line_id\n                    )',
-      '                        self.offset_byte_align,\n                        self._default_endian,\n                        line_id\n                    )', 'C01.3'),
+    V('c01-arg-align-hardcoded', _T + 'relative_address.py', '                self.argument_size,\n                self.argument_byte_align,\n                self.argument_endian,\n                line_id,\n                self.min_offset,',
+      '                self.argument_size,\n                True,\n                self.argument_endian,\n                line_id,\n                self.min_offset,', 'C01.3'),
+    V('c01-offset-endian-family', _T + 'indirect_register.py', '                            self.offset_byte_align,\n                            self.offset_endian,\n                            line_id\n                        )',
+      '                            self.offset_byte_align,\n                            self._default_endian,\n                            line_id\n                        )', 'C01.3'),
     V('c01-opcode-endian-default', _GI, "instruction_endian = variant._variant_config['bytecode'].get('endian', isa_model.endian)", "instruction_endian = isa_model.endian", 'C01.3'),
     V('c01-argument-endian-key', 'assembler/model/operand/__init__.py', "return self._config['argument'].get('endian', self._default_endian)", "return self._config.get('endian', self._default_endian)", 'C01.3'),
     V('c01-pack-wrong-align', _AS, '                    p.value_size,\n                    p.byte_align,\n                    p.endian,', '                    p.value_size,\n                    False,\n                    p.endian,', 'C01.4'),
